@@ -12,7 +12,7 @@ NAME = "phantoms"
 RULE = ("0-20 records (incl. empty and all-phantom lists), 1-4 contests (also none), card bounds None / = / > the number "
         "of records listing the contest, max_cards >= #records, style on/off, random prefix, tally_pool / pool "
         "arguments; malformed stream: bounds below the count, max_cards below #records (negative phantom count); "
-        "exhaustive part: every style sequence of <=2 (quick) / <=4 (thorough) records x 2 contests x bounds None/+0/+1/+2 "
+        "exhaustive part: every style sequence of <=3 (quick) / <=4 (thorough) records x 2 contests x bounds None/+0/+1/+2 "
         "x max_cards +0/+2; "
         "non-trivial = style information used and at least two contests with different positive shortfalls, or a "
         "no-style call that creates phantoms; distinct = distinct canonical input")
@@ -177,7 +177,7 @@ def gen_random(rng):
 
 
 def gen(rng, n, tier):
-    ex = list(gen_exhaustive(rng, 2 if tier == "quick" else 4))
+    ex = list(gen_exhaustive(rng, 3 if tier == "quick" else 4))
     if len(ex) > n // 2:
         rng.shuffle(ex); ex = ex[: n // 2]
     count = 0
